@@ -473,7 +473,7 @@ Round(ev) ==
          m1 == IF first THEN Max(aux.m[1], ev.areas) ELSE aux.m[1]
          m2 == IF second THEN Max(aux.m[2], ev.areas) ELSE aux.m[2]
      IN /\ aux' = [aux EXCEPT !.m = IF ev.k = 1 THEN <<0, 0>> ELSE <<m1, m2>>]
-        /\ (ev.k = ev.n => GD("NoBlowUp", <<m1, m2>>, m2 <= m1 + 2 + (m1 \div 8)))     \* (bounded: the second half stays within an eighth of the first half's maximum)
+        /\ (ev.k = ev.n => GD("NoBlowUp", <<m1, m2>>, m2 <= m1 + 4 + (m1 \div 8)))     \* (bounded: the second half stays within an eighth of the first half's maximum, plus four page areas)
   /\ UNCHANGED <<live, heaps, dflt, backing, flux, arenas, osfail, cfg>>
 
 \* C14: after everything has been freed (and collected) the arena can again be allocated completely: no arena block is still
